@@ -23,6 +23,13 @@ Supported subset (anything else raises TranslateError and the table is written a
                generator expressions with an optional `if`, `x in xs` / `x not in xs`, `xs[i]` (documented domain:
                0 <= i < len(xs)), slices `xs[a:]`, `xs[:b]`, `xs[a:b]` (documented domain: non-negative bounds) and
                `xs[::-1]`.
+Objects the function only passes around or reads declared attributes of are OPAQUE (`α`): `task.operator.is_constant`
+becomes a parameter `attr_operator_is_constant : α → Bool` of the translated definition (the external behaviour is a
+parameter, as for Aeneas-style translations); an attribute that is an int or None has type `Option Int` and `x == 0` is
+`x == some 0`.  Further forms: `for i, x in enumerate(xs)` (fold over `xs.zipIdx`), `zip(a, b)`, empty list literals whose
+type is declared per function, comprehensions with several generators (→ `flatMap`) and tuple targets (`for a, _ in pairs`),
+calls of functions that are themselves translated (declared per function in `known`).  The loop-carried tuple lists the
+variables in order of first assignment, so renaming a variable does not change the translated definition's shape.
 Python built-ins are rendered through the prelude `OQ/Exec/Py.lean`, which is itself compared with CPython on every
 run (harness/prelude_check.py).  Types are given per function in SPECS (Python is untyped); the translator checks
 them structurally.  A python `str` is a Lean `List Char`; iterating over it yields `Char`.
